@@ -57,6 +57,8 @@ class MWorld(World):
             self.n += 1
             d = Opaque("disposable", f"sub:{o.name}#{self.n}")
             self.log.append(("subscribe", o, list(args), dict(kwargs), d))
+            if getattr(self, "probe", None) is not None:
+                self.__dict__.setdefault("probes", []).append(self.probe())
             if self.reenter is not None:
                 self.reenter(it)
             return d
@@ -135,7 +137,10 @@ class McastHarness:
         c.fields["has_subscription"] = connected
         c.fields["subscription"] = D0 if connected else (None if ctx.choose(2, "stale subscription") == 0 else Opaque("disposable", "stale"))
         w.log.clear()
+        w.probes = []
+        w.probe = lambda: c.fields.get("has_subscription")
         D = it.call(it.get_attr(c, "connect"), [self.sched], {})
+        w.probe = None
         subs = self.ev("subscribe")
         if connected:
             self.rec(ctx, uid + "/connected/subscribes-nothing", not subs)
@@ -144,6 +149,10 @@ class McastHarness:
         ok = len(subs) == 1 and subs[0][1] is self.src and subs[0][2] and subs[0][2][0] is self.subject and subs[0][3].get("scheduler") is self.sched
         self.rec(ctx, uid + "/disconnected/subscribes-the-subject-to-the-source-exactly-once", ok)
         self.rec(ctx, uid + "/disconnected/marks-itself-connected-and-keeps-the-connection", c.fields.get("has_subscription") is True and c.fields.get("subscription") is D)
+        # call-out discipline: the source may emit from inside subscribe and a subscriber may call connect() again from there -
+        # the 'already connected' guard has to be armed before the call-out
+        self.rec(ctx, uid + "/disconnected/is-marked-connected-before-the-source-is-subscribed", w.probes == [True],
+                 detail="has_subscription is still False while source.subscribe runs: a nested connect() subscribes the source a second time")
         if not ok:
             return
         w.log.clear()
